@@ -217,6 +217,9 @@ type Evaluator struct {
 	// decimal observer applications seen (for bridge-axiom instantiation)
 	onDec func(lo, hi T)
 	onBE  func(arr, off, n T)
+	folds  map[string]*Fold
+	onFold func(name string, arr, off, n T)
+	typeTag func(name string) int
 	// prev(e): value of e at the head of the innermost enclosing loop
 	prev func(e Expr, env *Env) Val
 	// structure of real-valued terms (for distributing rs over + - ite)
@@ -689,6 +692,33 @@ func (ev *Evaluator) call(x *ECall, env *Env) Val {
 			return Leaf{T: o.Tag}
 		}
 		ev.fail("tag of untagged value")
+	case "from":
+		// from(s, k): the slice or string s[k:]
+		sl, ok := ev.Eval(x.Args[0], env).(*SliceV)
+		if !ok {
+			ev.fail("from: expected a slice or string")
+		}
+		k := ev.specOf(ev.Eval(x.Args[1], env))
+		cp := *sl
+		cp.Off = mkAdd(sl.Off, k)
+		cp.Len = mkSub(sl.Len, k)
+		cp.Cap = mkSub(sl.Cap, k)
+		return &cp
+	case "typetag":
+		// typetag("T") / typetag("*T"): the tag of a dynamic type of this package (compare with tag(err))
+		st, ok := x.Args[0].(*EStr)
+		if !ok || ev.typeTag == nil {
+			ev.fail("typetag expects a string literal")
+		}
+		name := st.S
+		if strings.ContainsAny(name, "./") {
+			// fully qualified type of another package, e.g. "*encoding/json.UnmarshalTypeError"
+		} else if strings.HasPrefix(name, "*") {
+			name = "*" + ev.pkg.Path() + "." + name[1:]
+		} else {
+			name = ev.pkg.Path() + "." + name
+		}
+		return ev.num(big.NewInt(int64(ev.typeTag(name))))
 	case "rs":
 		if ev.th.Mode() != "int" {
 			ev.fail("rs only in int mode")
@@ -708,6 +738,29 @@ func (ev *Evaluator) call(x *ECall, env *Env) Val {
 			}
 			return ev.num(new(big.Int).Exp(big.NewInt(base), a.C, nil))
 		}
+	}
+	if f, isFold := ev.folds[x.Fn]; isFold {
+		if len(x.Args) != 2 || ev.th.Mode() != "int" {
+			ev.fail("%s: expected (sequence, count) in int mode", x.Fn)
+		}
+		sl, ok := ev.Eval(x.Args[0], env).(*SliceV)
+		if !ok {
+			ev.fail("%s: first argument must be a byte slice or string", x.Fn)
+		}
+		arr := sl.Arr
+		if sl.Back != nil {
+			arr = ev.slice(sl, env.inOld)
+		}
+		off := sl.Off
+		n := ev.specOf(ev.Eval(x.Args[1], env))
+		if ev.vc != nil {
+			off = ev.vc.define("foldoff", off)
+			n = ev.vc.define("foldn", n)
+		}
+		if ev.onFold != nil {
+			ev.onFold(f.Name, arr, off, n)
+		}
+		return Leaf{T: T{S: fmt.Sprintf("(fold_%s %s %s %s)", f.Name, arr.S, off.S, n.S), Sort: sortInt}}
 	}
 	sig, ok := ev.sigs[x.Fn]
 	if !ok {
